@@ -17,6 +17,8 @@ use crate::model;
 #[derive(Clone, Copy, Debug, Serialize, Deserialize, PartialEq)]
 pub enum Cmd {
     Build,
+    /// ska build from paired FASTQ files (three-column file list), --min-count 1
+    BuildFastq,
     AlignSkf,
     AlignOneStep,
     MapSkf { vcf: bool },
@@ -50,6 +52,7 @@ fn case_strategy() -> BoxedStrategy<Case> {
         proptest::collection::vec((any::<u16>(), 0u8..4, any::<u16>()), 1..12),
         prop_oneof![
             2 => Just(Cmd::Build),
+            2 => Just(Cmd::BuildFastq),
             1 => Just(Cmd::AlignSkf),
             2 => Just(Cmd::AlignOneStep),
             1 => any::<bool>().prop_map(|vcf| Cmd::MapSkf { vcf }),
@@ -104,10 +107,14 @@ fn run_cmd(ctx: &Ctx, dir: &std::path::Path, c: &Case, k: usize, samples: &[Samp
     let infra = |o: &CmdOut| o.infra().map(Outcome::Infra);
     let files: Vec<String> = (0..samples.len()).map(|i| format!("smp{i}.fa")).collect();
     match c.cmd {
-        Cmd::Build => {
+        Cmd::Build | Cmd::BuildFastq => {
             let out = format!("b_{tag}");
             let ks = k.to_string();
-            let o = run_ska(ctx, dir, &["build", "-f", "list.txt", "-o", &out, "-k", &ks, "--threads", &ts]);
+            let o = if c.cmd == Cmd::Build {
+                run_ska(ctx, dir, &["build", "-f", "list.txt", "-o", &out, "-k", &ks, "--threads", &ts])
+            } else {
+                run_ska(ctx, dir, &["build", "-f", "fq_list.txt", "-o", &out, "-k", &ks, "--threads", &ts, "--min-count", "1", "--qual-filter", "no-filter"])
+            };
             if let Some(e) = infra(&o) {
                 return Err(e);
             }
@@ -188,6 +195,19 @@ fn check(c: &Case, ctx: &Ctx) -> Outcome {
             list += &format!("{name}\tsmp{i}.fa\n");
         }
         std::fs::write(dir.join("list.txt"), list).unwrap();
+        if c.cmd == Cmd::BuildFastq {
+            // paired reads: the first half of each genome in file 1, the second half (reverse-complemented) in file 2
+            let mut fq = String::new();
+            for (i, (name, recs)) in samples.iter().enumerate() {
+                let g = &recs[0];
+                let half = g.len() / 2;
+                let (a, b) = (g[..half + k].to_vec(), model::revcomp(&g[half..]));
+                cli::write_fastq(&dir.join(format!("smp{i}_1.fastq")), &[(a.clone(), vec![b'I'; a.len()])]);
+                cli::write_fastq(&dir.join(format!("smp{i}_2.fastq")), &[(b.clone(), vec![b'I'; b.len()])]);
+                fq += &format!("{name}\tsmp{i}_1.fastq\tsmp{i}_2.fastq\n");
+            }
+            std::fs::write(dir.join("fq_list.txt"), fq).unwrap();
+        }
         cli::write_fasta(&dir.join("ref.fa"), &["ref".to_string()], &[anc.clone()], None);
         if matches!(c.cmd, Cmd::AlignSkf | Cmd::MapSkf { .. } | Cmd::Distance) {
             let ks = k.to_string();
@@ -218,6 +238,7 @@ fn check(c: &Case, ctx: &Ctx) -> Outcome {
         Ok(()) => {
             let mut cl: Vec<&'static str> = vec![match c.cmd {
                 Cmd::Build => "build",
+                Cmd::BuildFastq => "build_paired_fastq",
                 Cmd::AlignSkf => "align_skf",
                 Cmd::AlignOneStep => "align_one_step",
                 Cmd::MapSkf { vcf: false } => "map_skf_aln",
@@ -498,7 +519,7 @@ fn post(rt: &mut Runtime) {
     }
 }
 
-const RULE: &str = "generated configurations: sample counts {2,5,9,10,29,30,31,45,69,70,72,149,150,161} (both sides of every threshold of the 10-samples-per-thread rule, i.e. parallel-merge recursion depths 0-4), k in {15,17,21,31,33}, related genomes with shared SNPs, random orientation; one of build / align (skf, one-step) / map aln+vcf (skf, one-step `ska map ref.fa a.fa b.fa ...`) / distance; runs: --threads 1 (baseline), --threads 1 again (fresh process = fresh hash seeds), two thread counts from {2,3,4,8,16}, one repeated. Oracle vs baseline: byte-identical stdout for map and distance, same table for build (nk --full-info), same column multiset for align; success at 1 thread implies success at every count. Non-trivial: >= 10 samples or a one-step command. With >= 70 (150) samples one of the thread counts is forced to >= 8 (16) so that the deeper merge levels run.";
+const RULE: &str = "generated configurations: sample counts {2,5,9,10,29,30,31,45,69,70,72,149,150,161} (both sides of every threshold of the 10-samples-per-thread rule, i.e. parallel-merge recursion depths 0-4), k in {15,17,21,31,33}, related genomes with shared SNPs, random orientation; one of build (FASTA, or paired FASTQ through a three-column list) / align (skf, one-step) / map aln+vcf (skf, one-step `ska map ref.fa a.fa b.fa ...`) / distance; runs: --threads 1 (baseline), --threads 1 again (fresh process = fresh hash seeds), two thread counts from {2,3,4,8,16}, one repeated. Oracle vs baseline: byte-identical stdout for map and distance, same table for build (nk --full-info), same column multiset for align; success at 1 thread implies success at every count. Non-trivial: >= 10 samples or a one-step command. With >= 70 (150) samples one of the thread counts is forced to >= 8 (16) so that the deeper merge levels run.";
 
 fn stages(tier: Tier) -> Vec<Box<dyn Stage>> {
     vec![
